@@ -34,3 +34,45 @@ func pedOtherCommitsDeal(s vss.Suite, vp []kyber.Point, t, i int, tmpl *vss.Deal
 	_, c2 := p2.Commit(nil).Info()
 	return &vss.Deal{SessionID: tmpl.SessionID, SecShare: p2.Eval(uint32(i)), T: tmpl.T, Commitments: c2}
 }
+
+// pedAggregator drives the exported Aggregator API directly (share/dkg-style use without a Verifier).
+func pedAggregator(x *hx.Ctx, n, t int) {
+	s := x.S.(vss.Suite)
+	var vp []kyber.Point
+	for i := 0; i < n; i++ {
+		vp = append(vp, s.Point().Mul(s.Scalar().Pick(s.RandomStream()), nil))
+	}
+	dk := s.Scalar().Pick(s.RandomStream())
+	dealer, err := vss.NewDealer(s, dk, s.Scalar().Pick(s.RandomStream()), vp, uint32(t))
+	if !x.NoErr("NewDealer", err) {
+		return
+	}
+	poly := dealer.PrivatePoly()
+	pd, _ := dealer.PlaintextDeal(0)
+	for i := 0; i < n; i++ {
+		d, _ := dealer.PlaintextDeal(i)
+		x.NoErr("VerifyDeal honest", vss.NewEmptyAggregator(s, vp).VerifyDeal(d, true))
+	}
+	// a share that lies on the polynomial but at an index no verifier owns
+	for _, idx := range []uint32{uint32(n), uint32(n + 5)} {
+		d := pedCopyDeal(pd)
+		d.SecShare = poly.Eval(idx)
+		x.Err("VerifyDeal index out of bounds", vss.NewEmptyAggregator(s, vp).VerifyDeal(d, true))
+	}
+	d := pedCopyDeal(pd)
+	d.T = uint32(n + 1)
+	x.Err("VerifyDeal T too large", vss.NewEmptyAggregator(s, vp).VerifyDeal(d, true))
+	d = pedCopyDeal(pd)
+	d.T = 1
+	x.Err("VerifyDeal T too small", vss.NewEmptyAggregator(s, vp).VerifyDeal(d, true))
+	a := vss.NewEmptyAggregator(s, vp)
+	x.NoErr("first deal", a.VerifyDeal(pd, true))
+	x.Err("second deal with inclusion", a.VerifyDeal(pd, true))
+	x.Require("not certified without responses", !a.DealCertified())
+	_, err = vss.NewDealer(s, dk, nil, vp, 1)
+	x.Err("NewDealer t=1", err)
+	_, err = vss.NewDealer(s, dk, nil, vp, uint32(n+1))
+	x.Err("NewDealer t=n+1", err)
+	_, err = vss.NewVerifier(s, s.Scalar().Pick(s.RandomStream()), s.Point().Mul(dk, nil), vp)
+	x.Err("NewVerifier with a key outside the list", err)
+}
